@@ -141,6 +141,21 @@ def check_precision(cfg, sizes, rnd):
         err = float((a - b.double()).abs().max())
         if err > 64 * eps * (64 * gain * xmax + bias):
             return False, '%s/%s: float32 error %.3g exceeds 64*eps32*(64*gain*max|x|+bias) = %.3g' % (kind, pattern, err, 64 * eps * (64 * gain * xmax + bias))
+    # a float64 module on float64 data does not consult torch.get_default_dtype() at call time: bit-identical results
+    # whether the call happens under a float32 or a float64 default (and symmetrically for the float32 module)
+    for mod_, inp_, ref_, other in ((m64, i64, o64, torch.float64), (m32, i32, o32, torch.float64)):
+        old_ = torch.get_default_dtype()
+        torch.set_default_dtype(other)
+        try:
+            alt = _flat(mod_(inp_))
+        except Exception as e:
+            return False, '%s: raises under default dtype %s: %s' % (kind, other, str(e)[:100])
+        finally:
+            torch.set_default_dtype(old_)
+        for a, b in zip(ref_, alt):
+            if a.dtype != b.dtype or not torch.equal(a, b):
+                return False, '%s: the result of a %s module depends on the global default dtype at call time (max diff %.3g)' % (
+                    kind, a.dtype, float((a.double() - b.double()).abs().max()))
     # .double() conversion of a float32-built module
     md = m32.double()
     od = _flat(md(i64))
@@ -181,3 +196,67 @@ def check_functional_dtype(cfg, sizes, rnd):
     except Exception as e:
         return False, 'afb2d(float64 image, list filters) raises %s: %s' % (type(e).__name__, str(e)[:80])
     return y.dtype == torch.float64, 'dtype %s' % y.dtype
+
+
+# ---- history / order independence across configurations (fresh interpreters) ----
+ORDER_FAMILIES = {
+    'dwt1d': [('dwt1d', dict(J=2, wave='db3', mode=m), (2, 2, 24)) for m in ('symmetric', 'periodic', 'zero', 'reflect', 'periodization')],
+    'dwt2d': [('dwt2d', dict(J=2, wave='db2', mode=m), (1, 2, 16, 16)) for m in ('symmetric', 'periodic', 'zero', 'reflect', 'periodization')] +
+             [('dwt2d', dict(J=2, wave='bior2.2', mode='symmetric'), (1, 2, 16, 16))],
+    'swt': [('swt', dict(J=2, wave='db2', mode=m), (1, 2, 16, 16)) for m in ('periodization', 'symmetric', 'zero', 'reflect')],
+    'dtcwt': [('dtcwt', dict(J=2, biort=b, qshift=q, mode=m), (1, 2, 16, 16)) for b, q in (('near_sym_a', 'qshift_a'), ('near_sym_b', 'qshift_b'), ('legall', 'qshift_a'))
+              for m in ('symmetric',)] + [('dtcwt', dict(J=2, o_dim=1, ri_dim=2), (1, 2, 16, 16))],
+    'scat': [('scat', dict(biort=b, magbias=mb), (1, 3, 16, 16)) for b, mb in (('near_sym_a', 1e-2), ('near_sym_b', 1e-2), ('near_sym_a', 0.1))],
+}
+
+
+def _order_run(family, order):
+    """in THIS interpreter: run the family's configurations in the given order; one digest per configuration"""
+    import hashlib
+    out = {}
+    for k in order:
+        kind, kw, shp = ORDER_FAMILIES[family][k]
+        x = torch.tensor(np.random.RandomState(5).randn(*shp))
+        m = _mk(kind, torch.float64, **kw)
+        h = hashlib.sha256()
+        for t in _flat(m(x)):
+            h.update(np.ascontiguousarray(t.detach().numpy()).tobytes())
+        out[str(k)] = h.hexdigest()
+    return out
+
+
+@register('history_order')
+def check_history_order(cfg, sizes, rnd):
+    """every configuration of a family gives bit-identical results whatever was called before it in the process:
+       fresh interpreters run the configurations in forward, reversed and a seeded random order"""
+    import subprocess, json as _json, os as _os, sys as _sys
+    family = cfg['family']
+    if family == 'all':
+        for f in sorted(ORDER_FAMILIES):
+            ok, det = check_history_order(dict(cfg, family=f), sizes, rnd)
+            if not ok:
+                return ok, det
+        return True, 'history_order: all families identical'
+    n = len(ORDER_FAMILIES[family])
+    orders = [list(range(n)), list(range(n))[::-1]]
+    o3 = list(range(n))
+    rnd.shuffle(o3)
+    orders.append(o3)
+    res = []
+    for o in orders:
+        p = subprocess.run([_sys.executable, _os.path.abspath(__file__), '--order-run', family, _json.dumps(o)], capture_output=True, text=True,
+                           env=dict(_os.environ), timeout=600)
+        if p.returncode != 0:
+            return False, 'history_order %s: run failed: %s' % (family, p.stderr[-200:])
+        res.append(_json.loads(p.stdout.strip().splitlines()[-1]))
+    for k in range(n):
+        if len({r[str(k)] for r in res}) != 1:
+            return False, 'history_order %s: configuration %s gives different results depending on which calls preceded it in the process' % (
+                family, ORDER_FAMILIES[family][k][1])
+    return True, 'history_order %s: %d configurations x %d orders identical' % (family, n, len(orders))
+
+
+if __name__ == '__main__':
+    import sys as _s, json as _j
+    if len(_s.argv) > 3 and _s.argv[1] == '--order-run':
+        print(_j.dumps(_order_run(_s.argv[2], _j.loads(_s.argv[3]))))
